@@ -161,7 +161,13 @@ func c13BuildFile(idx int) *c13File {
 
 var c13Paths = []string{"Read[T]", "GenericReader(1)", "Rows", "Pages", "Seek+Rows", "Seek+Pages", "Seek+Reader", "ValueReader", "Rows(async)",
 	// after the first error the same seek and read are issued again on the same reader: what counts is the second answer
-	"Seek+Pages(retry)", "Seek+Rows(retry)"}
+	"Seek+Pages(retry)", "Seek+Rows(retry)",
+	// after the error on page k: seek back into page k-1 (just returned, cached by the reader) and read two pages
+	"Seek+Pages(back)"}
+
+// c13BackServed is set by the Seek+Pages(back) access when the read following
+// the re-read of page k-1 returned a page instead of the error of page k.
+var c13BackServed bool
 
 var c13Faults = []string{"bit", "burst2", "burst3", "burst4", "burst8"}
 
@@ -294,7 +300,7 @@ func c13Access(f *c13File, data []byte, path string, pg c13Page, seek int64) (go
 			}
 			base += rg.NumRows()
 		}
-	case "Pages", "Seek+Pages", "ValueReader", "Seek+Pages(retry)":
+	case "Pages", "Seek+Pages", "ValueReader", "Seek+Pages(retry)", "Seek+Pages(back)":
 		// only the corrupted column of the corrupted row group: values as strings
 		chunk := pf.RowGroups()[pg.rg].ColumnChunks()[pg.col]
 		if path == "ValueReader" {
@@ -315,7 +321,7 @@ func c13Access(f *c13File, data []byte, path string, pg c13Page, seek int64) (go
 		}
 		pages := chunk.Pages()
 		defer pages.Close()
-		if path == "Seek+Pages" || path == "Seek+Pages(retry)" {
+		if strings.HasPrefix(path, "Seek+Pages") {
 			base := int64(0)
 			for i := 0; i < pg.rg; i++ {
 				base += f.groups[i]
@@ -344,6 +350,43 @@ func c13Access(f *c13File, data []byte, path string, pg c13Page, seek int64) (go
 				parquet.Release(p)
 			}
 			if e != nil {
+				if path == "Seek+Pages(back)" && e != io.EOF && !pg.isDict {
+					base := int64(0)
+					for i := 0; i < pg.rg; i++ {
+						base += f.groups[i]
+					}
+					back := pg.firstRow - base - 1
+					if back < 0 || back < from {
+						noteErr(e)
+						return
+					}
+					// page k-1 was the last page returned: seek into it and read on
+					got, corrupted, err = nil, false, nil
+					from = back
+					if e2 := pages.SeekToRow(back); e2 != nil {
+						noteErr(e2)
+						return
+					}
+					for k := 0; k < 2; k++ {
+						p2, e2 := pages.ReadPage()
+						if p2 != nil {
+							if k == 1 {
+								c13BackServed = true
+							}
+							vals := make([]parquet.Value, p2.NumValues())
+							n, _ := p2.Values().ReadValues(vals)
+							for i := 0; i < n; i++ {
+								got = append(got, fmt.Sprintf("%d/%d/%v", vals[i].RepetitionLevel(), vals[i].DefinitionLevel(), vals[i].String()))
+							}
+							parquet.Release(p2)
+						}
+						if e2 != nil {
+							noteErr(e2)
+							return
+						}
+					}
+					return
+				}
 				if path == "Seek+Pages(retry)" && e != io.EOF {
 					// same seek, same read, once more: the answer of the retry is the result
 					got, corrupted, err = nil, false, nil
@@ -420,7 +463,18 @@ func c13Run(x *engine.X) {
 	try := func(what string) bool {
 		for _, s := range seeks {
 			x.AddEvals(1)
+			c13BackServed = false
 			got, from, corrupted, err := c13Access(f, data, path, pg, s)
+			if path == "Seek+Pages(back)" && c13BackServed {
+				x.Failf("undetected", shape, "%s, seek=%d: after the error on the corrupted page, SeekToRow into the page before it and two ReadPage calls returned two pages: the corrupted page was skipped or served without error", what, s)
+				return false
+			}
+			if path == "Seek+Pages(back)" && from != s {
+				// the values now start at the row seeked back to, not at s: what
+				// matters is that the page after the re-read one was not served
+				_ = got
+				continue
+			}
 			// does this access touch the corrupted page?
 			touches := true
 			if strings.HasPrefix(path, "Seek+") && pg.isDict && !strings.HasPrefix(path, "Seek+Pages") {
